@@ -1,3 +1,556 @@
-pub fn run(_cli: common::Cli) -> ! {
-    common::machinery("not built yet")
+//! C08: connection behaviour is independent of segmentation and completion timing.
+//!
+//! Differential, deviation-bounded exploration: each scenario is run once unsegmented with
+//! prompt transport answers (baseline) and then with every single deviation (and, in the
+//! thorough tier, the stated pairs) from the alphabet: a segment boundary at any byte offset of
+//! the client's stream followed by a pause, a partial / delayed acceptance of any clientbound
+//! frame, one-byte segmentation, and another pattern of unbiased select draws.
+use crate::sim::*;
+use crate::util::*;
+use common::refs::codec::Pkt;
+use common::{Cli, Report, Violation, par_for};
+use serde::{Deserialize, Serialize};
+use serde_json::{Value, json};
+use std::collections::HashSet;
+use std::sync::Mutex;
+use std::sync::atomic::{AtomicU64, Ordering};
+
+const PERIOD: Ms = 16_000;
+const SECRET: &[u8] = b"c08-cookie-secret";
+const CK_NAME: &str = "Cookie_Holder";
+const CK_UUID: u128 = 0x0987_9557_e479_45a9_b434_a56377674627;
+
+#[derive(Clone, Debug, Serialize, Deserialize, PartialEq)]
+pub enum Dev {
+    /// segment boundary before byte `offset` of the client's stream; the rest arrives after the pause
+    SplitYield { offset: usize },
+    SplitMs { offset: usize, ms: u64 },
+    SplitUntil { offset: usize, t: u64 },
+    /// clientbound frame `frame`: accept `first` bytes, then the given wait, then the rest
+    Write { frame: usize, first: usize, wait: String, t: u64 },
+    /// deliver the client's bytes one at a time
+    OneByteReads,
+    /// accept clientbound bytes one at a time
+    OneByteWrites,
+    /// another seed for the unbiased select draws
+    Seed { seed: u64 },
+    /// latency override of one adapter (0 discovery, 1 filter, 2 strategy)
+    Latency { adapter: usize, ms: u64 },
+}
+
+#[derive(Clone, Debug, Serialize, Deserialize, PartialEq)]
+pub struct Spec {
+    scenario: String,
+    devs: Vec<Dev>,
+}
+
+pub fn scenario_names() -> Vec<&'static str> {
+    vec!["status", "login-transfer", "cookie-transfer", "login-no-target", "big-frames-slow-discovery", "slow-discovery", "slow-filter", "slow-strategy"]
+}
+
+fn scenario(name: &str) -> Case {
+    let mut case = Case::default();
+    case.cfg.auth_secret = Some(SECRET.to_vec());
+    case.horizon_ms = 300_000;
+    match name {
+        "status" => {
+            case.adapters.status = StatusPlan::Full;
+            case.script = vec![
+                st(When::Idle, Act::Handshake { proto: 769, host: "mc.example.org".into(), port: 25565, next: 1 }),
+                st(When::Idle, Act::StatusRequest),
+                st(When::Idle, Act::Ping(0x0102030405060708)),
+            ];
+        }
+        "login-transfer" => case.script = Login::default().steps(),
+        "cookie-transfer" => {
+            let cookie = valid_cookie(SECRET, 5, &case.cfg.client_addr.to_string(), CK_NAME, CK_UUID, &[]);
+            case.script = Login { intent: 3, auth_cookie: Some(Some(cookie)), ..Default::default() }.steps();
+        }
+        "login-no-target" => {
+            case.script = Login { locale: "de_de".into(), ..Default::default() }.steps();
+            case.adapters.strat = StratPlan::None;
+        }
+        "big-frames-slow-discovery" => {
+            let mut steps = Login { locale: "l".repeat(140), ..Default::default() }.steps();
+            // a 200-byte plugin message before Client Information (frames whose length prefix is two bytes)
+            let ci = steps.pop().unwrap();
+            steps.push(st(When::Idle, Act::Frame { id: 2, body: common::refs::codec::W::new().string("minecraft:brand").raw(&[0x42; 200]).done() }));
+            steps.push(ci);
+            case.script = steps;
+            case.adapters.disc_ms = 20_000;
+        }
+        "slow-discovery" | "slow-filter" | "slow-strategy" => {
+            case.script = Login::default().steps();
+            match name {
+                "slow-discovery" => case.adapters.disc_ms = 20_000,
+                "slow-filter" => case.adapters.filter_ms = 20_000,
+                _ => case.adapters.strat_ms = 20_000,
+            }
+        }
+        other => common::machinery(&format!("unknown scenario {other}")),
+    }
+    case
+}
+
+fn apply(case: &mut Case, devs: &[Dev]) {
+    for d in devs {
+        match d {
+            Dev::SplitYield { offset } => case.transport.splits.push(Split { offset: *offset, pause: Pause::Yield }),
+            Dev::SplitMs { offset, ms } => case.transport.splits.push(Split { offset: *offset, pause: Pause::Ms(*ms) }),
+            Dev::SplitUntil { offset, t } => case.transport.splits.push(Split { offset: *offset, pause: Pause::Until(*t) }),
+            Dev::Write { frame, first, wait, t } => {
+                let mut prog = vec![];
+                if *first > 0 {
+                    prog.push(WStep::Accept(*first));
+                }
+                match wait.as_str() {
+                    "yield" => prog.push(WStep::Yield),
+                    "ms" => prog.push(WStep::Sleep(*t)),
+                    "until" => prog.push(WStep::Until(*t)),
+                    _ => {}
+                }
+                case.transport.writes.push(WriteDev { frame: *frame, prog });
+            }
+            Dev::OneByteReads => case.transport.read_chunk = Some(1),
+            Dev::OneByteWrites => case.transport.write_chunk = Some(1),
+            Dev::Seed { seed } => case.rng_seed = *seed,
+            Dev::Latency { adapter, ms } => match adapter {
+                0 => case.adapters.disc_ms = *ms,
+                1 => case.adapters.filter_ms = *ms,
+                _ => case.adapters.strat_ms = *ms,
+            },
+        }
+    }
+}
+
+/// the observable trace: decoded clientbound packets other than keep-alives (volatile cookie
+/// fields removed), adapter calls with their arguments, result
+fn observable(obs: &Obs) -> (Vec<Value>, Vec<Call>, String) {
+    let pk = obs
+        .packets
+        .iter()
+        .filter(|(_, p)| !matches!(p, Pkt::KeepAlive { .. }))
+        .map(|(_, p)| match p {
+            Pkt::StoreCookie { key, payload } if key == "passage:authentication" => {
+                let (ok, body) = open_cookie(payload, SECRET);
+                let mut b = body.unwrap_or(Value::Null);
+                if let Some(o) = b.as_object_mut() {
+                    o.remove("timestamp");
+                }
+                json!({"StoreCookie(auth)": {"tag_ok": ok, "body": b}})
+            }
+            Pkt::StoreCookie { key, payload } if key == "passage:session" => {
+                let mut b: Value = serde_json::from_slice(payload).unwrap_or(Value::Null);
+                if let Some(o) = b.as_object_mut() {
+                    o.remove("id");
+                }
+                json!({"StoreCookie(session)": b})
+            }
+            Pkt::EncryptionRequest { server_id, should_authenticate, .. } => json!({"EncryptionRequest": {"server_id": server_id, "should_authenticate": should_authenticate}}),
+            other => other.to_json(),
+        })
+        .collect();
+    (pk, obs.calls.iter().map(|c| c.untimed()).collect(), obs.result.kind())
+}
+
+struct Base {
+    case: Case,
+    obs: Obs,
+    /// timer events of the baseline timeline: keep-alive ticks and adapter completions
+    ticks: Vec<Ms>,
+    completions: Vec<Ms>,
+    /// (start offset, length) of every clientbound frame and its kind
+    cb_frames: Vec<(usize, &'static str)>,
+}
+
+fn baseline(name: &str, extra: &[Dev]) -> Base {
+    let mut case = scenario(name);
+    apply(&mut case, extra);
+    let obs = crate::sim::run(&case);
+    let end = obs.end_ms;
+    let ticks: Vec<Ms> = (1..).map(|k| k * PERIOD).take_while(|t| *t <= end + PERIOD).collect();
+    let mut completions = vec![];
+    for c in &obs.calls {
+        let lat = match c {
+            Call::Discover { .. } => case.adapters.disc_ms,
+            Call::Filter { .. } => case.adapters.filter_ms,
+            Call::Select { .. } => case.adapters.strat_ms,
+            Call::Auth { .. } => case.adapters.auth_ms,
+            Call::Status { .. } => case.adapters.status_ms,
+        };
+        if lat > 0 {
+            completions.push(c.t() + lat);
+        }
+    }
+    // clientbound frames in order (each packet is one write_all)
+    let cb_frames = obs.packets.iter().enumerate().map(|(i, (_, p))| (i, p.kind())).collect();
+    Base { case, obs, ticks, completions, cb_frames }
+}
+
+/// Did the injected pause make the *client* break the keep-alive rules? (decided from the
+/// client's own logs, not from what the server did)
+fn client_non_compliant(obs: &Obs) -> bool {
+    for (t, p) in &obs.packets {
+        if let Pkt::KeepAlive { id } = p {
+            let arrival = obs.echo_arrivals.iter().find(|(_, i)| i == id).map(|(a, _)| *a);
+            match arrival {
+                Some(a) if a < t + PERIOD => {}
+                // an echo that arrives at or after the next tick (or never, while the connection went on)
+                Some(_) => return true,
+                None => {
+                    if obs.end_ms >= t + PERIOD {
+                        return true;
+                    }
+                }
+            }
+        }
+    }
+    false
+}
+
+fn varint_len(total: usize) -> usize {
+    // total = p + value where p = encoded length of value
+    for p in 1..=3usize {
+        if total > p {
+            let v = total - p;
+            let need = if v < 128 { 1 } else if v < 16384 { 2 } else { 3 };
+            if need == p {
+                return p;
+            }
+        }
+    }
+    1
+}
+
+/// Classifies a failing schedule from the schedule alone (never from the outcome).
+fn classify(base: &Base, devs: &[Dev]) -> String {
+    let frames = &base.obs.sb_frames;
+    let routing_start = base.obs.calls.iter().find(|c| c.kind() == "discover").map(|c| c.t());
+    let mut keys: Vec<String> = vec![];
+    for d in devs {
+        let (offset, end_of_pause): (usize, Option<Ms>) = match d {
+            Dev::SplitYield { offset } => (*offset, None),
+            Dev::SplitMs { offset, ms } => (*offset, Some(*ms)),
+            Dev::SplitUntil { offset, t } => (*offset, Some(*t)),
+            Dev::Write { frame, wait, t, first } => {
+                let kind = base.cb_frames.get(*frame).map(|f| f.1).unwrap_or("?");
+                let crosses = wait != "yield" && wait != "none" && base.completions.iter().any(|c| *c <= *t || wait == "ms");
+                if kind == "KeepAlive" && crosses && *first > 0 {
+                    keys.push("outbound-frame-vs-adapter-completion".into());
+                } else if kind == "KeepAlive" && crosses {
+                    keys.push("outbound-keep-alive-delayed-past-completion".into());
+                } else {
+                    keys.push(format!("write-deviation:{kind}"));
+                }
+                continue;
+            }
+            Dev::OneByteReads => {
+                keys.push("one-byte-reads".into());
+                continue;
+            }
+            Dev::OneByteWrites => {
+                keys.push("one-byte-writes".into());
+                continue;
+            }
+            Dev::Seed { .. } => {
+                keys.push("select-draw-pattern".into());
+                continue;
+            }
+            Dev::Latency { .. } => {
+                keys.push("adapter-latency".into());
+                continue;
+            }
+        };
+        let Some((start, len, emitted, _)) = frames.iter().find(|(s, l, _, _)| offset >= *s && offset < s + l).copied() else {
+            keys.push("split-outside-stream".into());
+            continue;
+        };
+        let pos = offset - start;
+        let p = varint_len(len);
+        let end = match (d, end_of_pause) {
+            (Dev::SplitMs { .. }, Some(ms)) => emitted + ms,
+            (_, Some(t)) => t.max(emitted),
+            _ => emitted,
+        };
+        let crosses_tick = base.ticks.iter().any(|g| *g > emitted && *g <= end);
+        let crosses_completion = base.completions.iter().any(|c| *c > emitted && *c <= end) || matches!(d, Dev::SplitYield { .. }) && base.completions.contains(&emitted);
+        let in_routing = routing_start.is_some_and(|r| emitted >= r);
+        if pos > 0 && pos < p && crosses_tick {
+            keys.push("length-prefix-vs-tick".into());
+        } else if pos > 0 && in_routing && crosses_completion {
+            keys.push("inbound-frame-vs-adapter-completion".into());
+        } else {
+            let region = if pos == 0 { "frame-boundary" } else if pos < p { "inside-length-prefix" } else { "inside-frame" };
+            let what = if crosses_tick { "across-tick" } else if crosses_completion { "across-completion" } else { "short-pause" };
+            keys.push(format!("read-split:{region}:{what}"));
+        }
+    }
+    keys.sort();
+    keys.dedup();
+    keys.join("+")
+}
+
+struct Counters {
+    runs: AtomicU64,
+    unjudged: AtomicU64,
+    split_across_timer: AtomicU64,
+    partial_writes: AtomicU64,
+}
+
+fn run_spec(base: &Base, spec: &Spec) -> (Obs, Option<(String, String)>, bool) {
+    let mut case = base.case.clone();
+    apply(&mut case, &spec.devs);
+    let obs = crate::sim::run(&case);
+    if let RunResult::Panic(p) = &obs.result {
+        return (obs.clone(), Some((format!("panic:{}", classify(base, &spec.devs)), p.clone())), false);
+    }
+    if client_non_compliant(&obs) {
+        return (obs, None, true);
+    }
+    let (bp, bc, br) = observable(&base.obs);
+    let (op, oc, or) = observable(&obs);
+    let mut diff: Option<String> = None;
+    if obs.garbled.is_some() || obs.partial_tail > 0 || obs.has("Unknown") {
+        diff = Some(format!("a clientbound frame arrived torn or interleaved: {:?}, {} dangling bytes; decoded {:?}", obs.garbled, obs.partial_tail, obs.kinds()));
+    } else if op != bp {
+        let i = op.iter().zip(bp.iter()).position(|(a, b)| a != b).unwrap_or(op.len().min(bp.len()));
+        diff = Some(format!("clientbound packet #{i} differs: baseline {} / here {}; baseline kinds {:?}, here {:?}", bp.get(i).unwrap_or(&Value::Null), op.get(i).unwrap_or(&Value::Null), base.obs.kinds(), obs.kinds()));
+    } else if oc != bc {
+        diff = Some(format!("service calls differ: baseline {:?} / here {:?}", bc.iter().map(|c| c.kind()).collect::<Vec<_>>(), oc.iter().map(|c| c.kind()).collect::<Vec<_>>()));
+    } else if or != br {
+        diff = Some(format!("outcome differs: baseline {br} / here {or} ({:?})", obs.result));
+    } else if !matches!(obs.result, RunResult::Horizon) {
+        // every byte of the client's stream that arrived before the connection ended must have been
+        // consumed (what arrives at or after the end may be left over)
+        let must: usize = obs.sb_frames.iter().filter(|f| f.3 < obs.end_ms).map(|f| f.1).sum();
+        if obs.consumed < must {
+            diff = Some(format!("{} bytes of the client's stream that arrived before the connection ended were never consumed", must - obs.consumed));
+        }
+    }
+    match diff {
+        None => (obs, None, false),
+        Some(t) => (obs, Some((classify(base, &spec.devs), t)), false),
+    }
+}
+
+fn single_devs(base: &Base, thorough: bool) -> Vec<Dev> {
+    let mut v = vec![Dev::OneByteReads, Dev::OneByteWrites];
+    let n = base.obs.emitted;
+    let mut events: Vec<Ms> = base.ticks.iter().copied().chain(base.completions.iter().copied()).collect();
+    events.sort();
+    events.dedup();
+    for k in 0..n {
+        v.push(Dev::SplitYield { offset: k });
+        v.push(Dev::SplitMs { offset: k, ms: 1 });
+        let emitted = base.obs.sb_frames.iter().find(|(s, l, _, _)| k >= *s && k < s + l).map(|f| f.2).unwrap_or(0);
+        // until exactly / just after each of the next two timer events
+        for e in events.iter().filter(|e| **e >= emitted).take(if thorough { 3 } else { 2 }) {
+            v.push(Dev::SplitUntil { offset: k, t: *e });
+            v.push(Dev::SplitUntil { offset: k, t: *e + 1 });
+            if thorough && *e > 0 {
+                v.push(Dev::SplitUntil { offset: k, t: *e - 1 });
+            }
+        }
+    }
+    // write acceptance of every clientbound frame
+    let mut lens: Vec<usize> = vec![];
+    {
+        // frame lengths from the write log: consecutive writes at increasing offsets, frame boundaries from decoded packets
+        let mut off = 0;
+        for (_, p) in &base.obs.packets {
+            let _ = p;
+            // length = next frame start - this start; recover by decoding the varint at `off`
+            let (l, used) = common::refs::codec::get_varint(&decrypt_view(&base.obs)[off..]).unwrap_or((0, 1));
+            lens.push(l as usize + used);
+            off += l as usize + used;
+        }
+    }
+    for (f, len) in lens.iter().enumerate() {
+        for first in [1usize, len / 2, len.saturating_sub(1)] {
+            if first == 0 || first >= *len {
+                continue;
+            }
+            v.push(Dev::Write { frame: f, first, wait: "none".into(), t: 0 });
+            v.push(Dev::Write { frame: f, first, wait: "yield".into(), t: 0 });
+            v.push(Dev::Write { frame: f, first, wait: "ms".into(), t: 1 });
+            for e in events.iter().take(if thorough { 4 } else { 3 }) {
+                v.push(Dev::Write { frame: f, first, wait: "until".into(), t: *e });
+                v.push(Dev::Write { frame: f, first, wait: "until".into(), t: *e + 1 });
+            }
+        }
+        v.push(Dev::Write { frame: f, first: 0, wait: "yield".into(), t: 0 });
+        for e in events.iter().take(3) {
+            v.push(Dev::Write { frame: f, first: 0, wait: "until".into(), t: *e + 1 });
+        }
+    }
+    v
+}
+
+/// plaintext view of the clientbound wire (the harness knows the secret)
+fn decrypt_view(obs: &Obs) -> Vec<u8> {
+    match obs.enc_switch_at {
+        None => obs.raw_wire.clone(),
+        Some(at) => {
+            let mut out = obs.raw_wire[..at].to_vec();
+            let mut c = common::refs::cfb8::Cfb8::new(&Case::default().secret);
+            out.extend(c.decrypt(&obs.raw_wire[at..]));
+            out
+        }
+    }
+}
+
+pub fn run(cli: Cli) -> ! {
+    let rep = Report::new("C08", cli.tier, "model_checking");
+    if let Some(case) = cli.replay.clone() {
+        let spec: Spec = serde_json::from_value(case["spec"].clone()).unwrap_or_else(|e| common::machinery(&format!("bad replay: {e}")));
+        let pre: Vec<Dev> = spec.devs.iter().filter(|d| matches!(d, Dev::Latency { .. })).cloned().collect();
+        let base = baseline(&spec.scenario, &pre);
+        let (a, va, ua) = run_spec(&base, &spec);
+        let (b, vb, _) = run_spec(&base, &spec);
+        if a.kinds() != b.kinds() || va.as_ref().map(|v| &v.0) != vb.as_ref().map(|v| &v.0) {
+            common::machinery("two replays of the same schedule differ");
+        }
+        println!("scenario {} deviations {:?}", spec.scenario, spec.devs);
+        println!("schedule class: {}", classify(&base, &spec.devs));
+        println!("baseline: {:?} -> {}", base.obs.packets.iter().map(|(t, p)| (*t, p.kind())).collect::<Vec<_>>(), base.obs.result.kind());
+        println!("here    : {:?} -> {:?}", a.packets.iter().map(|(t, p)| (*t, p.kind())).collect::<Vec<_>>(), a.result);
+        println!("client frames (offset, len, emitted, arrived): {:?}", a.sb_frames);
+        if ua {
+            println!("not judged: the injected pause made the client itself miss a keep-alive deadline");
+        }
+        if let Some((k, t)) = va {
+            rep.violation(Violation { key: k, text: t, replay: case.clone(), weight: 0 });
+        }
+        rep.set("states", json!(1));
+        rep.set("transitions", json!(1));
+        rep.set("traces_validated_against_impl", json!(1));
+        rep.finish();
+    }
+    let thorough = cli.tier.thorough();
+    let cn = Counters { runs: AtomicU64::new(0), unjudged: AtomicU64::new(0), split_across_timer: AtomicU64::new(0), partial_writes: AtomicU64::new(0) };
+    let distinct: Mutex<HashSet<String>> = Mutex::new(HashSet::new());
+    let seeds = seeds_for_patterns(6);
+    if seeds.len() != 64 {
+        common::machinery("could not find seeds for all 64 select-draw patterns");
+    }
+    let mut specs_total = 0u64;
+    for name in scenario_names() {
+        let base = baseline(name, &[]);
+        // the baseline must be a complete, undisturbed run
+        if base.obs.garbled.is_some() || base.obs.consumed != base.obs.emitted || matches!(base.obs.result, RunResult::Panic(_)) {
+            common::machinery(&format!("baseline of scenario {name} is not clean: {:?}", base.obs.result));
+        }
+        let b2 = crate::sim::run(&base.case);
+        if observable(&b2) != observable(&base.obs) {
+            common::machinery("two baseline runs differ");
+        }
+        let singles = single_devs(&base, thorough);
+        let mut specs: Vec<Spec> = singles.iter().map(|d| Spec { scenario: name.into(), devs: vec![d.clone()] }).collect();
+        // select-draw patterns: alone and combined with one-byte reads
+        for s in &seeds {
+            specs.push(Spec { scenario: name.into(), devs: vec![Dev::Seed { seed: *s }] });
+            specs.push(Spec { scenario: name.into(), devs: vec![Dev::Seed { seed: *s }, Dev::OneByteReads] });
+        }
+        // one-byte segmentation combined with every single pause
+        for d in singles.iter().filter(|d| matches!(d, Dev::SplitUntil { .. } | Dev::SplitMs { .. })) {
+            if thorough || matches!(d, Dev::SplitUntil { offset, .. } if offset % 3 == 0) {
+                specs.push(Spec { scenario: name.into(), devs: vec![Dev::OneByteReads, d.clone()] });
+            }
+        }
+        if thorough {
+            // bound 2: pairs of read splits in the post-login region
+            let post = base.obs.sb_frames.iter().filter(|f| f.2 > 0 || base.obs.enc_switch_at.is_some()).map(|f| f.0).min().unwrap_or(0);
+            let enc_from = base.obs.sb_frames.iter().rev().take_while(|_| true).map(|f| f.0).filter(|o| *o >= post).min().unwrap_or(0);
+            let region: Vec<Dev> = singles.iter().filter(|d| matches!(d, Dev::SplitUntil { offset, .. } | Dev::SplitMs { offset, .. } if *offset >= enc_from && *offset + 80 >= base.obs.emitted)).cloned().collect();
+            for (i, a) in region.iter().enumerate() {
+                for b in &region[i + 1..] {
+                    specs.push(Spec { scenario: name.into(), devs: vec![a.clone(), b.clone()] });
+                }
+            }
+            // bound 2: write deviation on a keep-alive frame x select-draw pattern
+            for d in singles.iter().filter(|d| matches!(d, Dev::Write { frame, .. } if base.cb_frames.get(*frame).map(|f| f.1) == Some("KeepAlive"))) {
+                for s in seeds.iter().take(8) {
+                    specs.push(Spec { scenario: name.into(), devs: vec![d.clone(), Dev::Seed { seed: *s }] });
+                }
+            }
+        }
+        specs_total += specs.len() as u64;
+        par_for(specs.len(), |i| {
+            let spec = &specs[i];
+            let (obs, viol, unjudged) = run_spec(&base, spec);
+            cn.runs.fetch_add(1, Ordering::Relaxed);
+            if unjudged {
+                cn.unjudged.fetch_add(1, Ordering::Relaxed);
+            }
+            if obs.writes.len() > obs.packets.len() {
+                cn.partial_writes.fetch_add(1, Ordering::Relaxed);
+            }
+            if spec.devs.iter().any(|d| matches!(d, Dev::SplitUntil { t, .. } if *t >= PERIOD)) {
+                cn.split_across_timer.fetch_add(1, Ordering::Relaxed);
+            }
+            distinct.lock().unwrap().insert(format!("{name}|{:?}|{}", obs.packets.iter().map(|(t, p)| (*t, p.kind())).collect::<Vec<_>>(), obs.result.kind()));
+            if let Some((k, t)) = viol {
+                rep.violation(Violation { key: k, text: format!("scenario {name}, deviations {:?}: {t}", spec.devs), replay: json!({"spec": spec}), weight: spec.devs.len() as u64 * 1_000_000 + i as u64 });
+            }
+        });
+        // slow-adapter scenarios: the adapter completion placed on, just before and just after the
+        // arrival of each byte of the keep-alive echo (bound 2: latency x read split)
+        if name.starts_with("slow-") {
+            let which = match name {
+                "slow-discovery" => 0,
+                "slow-filter" => 1,
+                _ => 2,
+            };
+            let lats: Vec<u64> = if thorough { vec![15_999, 16_000, 16_001, 16_005, 17_000, 31_999, 32_000, 32_001] } else { vec![16_000, 16_001, 17_000] };
+            for lat in lats {
+                let pre = vec![Dev::Latency { adapter: which, ms: lat }];
+                let b = baseline(name, &pre);
+                let echo_frames: Vec<(usize, usize, Ms, Ms)> = b.obs.sb_frames.iter().filter(|f| f.2 >= PERIOD).copied().collect();
+                let mut sp = vec![];
+                for (start, len, _, _) in &echo_frames {
+                    for k in *start..start + len {
+                        for t in [lat.saturating_sub(1), lat, lat + 1] {
+                            let mut devs = pre.clone();
+                            devs.push(Dev::SplitUntil { offset: k, t });
+                            sp.push(Spec { scenario: name.into(), devs });
+                        }
+                    }
+                }
+                specs_total += sp.len() as u64;
+                par_for(sp.len(), |i| {
+                    let (obs, viol, unjudged) = run_spec(&b, &sp[i]);
+                    cn.runs.fetch_add(1, Ordering::Relaxed);
+                    if unjudged {
+                        cn.unjudged.fetch_add(1, Ordering::Relaxed);
+                    }
+                    distinct.lock().unwrap().insert(format!("{name}|{:?}|{}", obs.packets.iter().map(|(t, p)| (*t, p.kind())).collect::<Vec<_>>(), obs.result.kind()));
+                    if let Some((k, t)) = viol {
+                        rep.violation(Violation { key: k, text: format!("scenario {name}, deviations {:?}: {t}", sp[i].devs), replay: json!({"spec": sp[i]}), weight: 2_000_000 + i as u64 });
+                    }
+                });
+            }
+        }
+    }
+    let runs = cn.runs.load(Ordering::Relaxed);
+    let d = distinct.lock().unwrap().len() as u64;
+    rep.require("runs with a frame split across a timer event", cn.split_across_timer.load(Ordering::Relaxed), 100);
+    rep.require("runs with a partially accepted clientbound frame", cn.partial_writes.load(Ordering::Relaxed), 100);
+    rep.require("distinct timed traces", d, 20);
+    rep.set("states", json!(runs));
+    rep.set("transitions", json!(runs));
+    rep.set("traces_validated_against_impl", json!(runs));
+    rep.set("evaluations", json!(runs));
+    rep.set("distinct_nontrivial", json!(d));
+    rep.set("scenarios", json!(scenario_names().len()));
+    rep.set("schedules", json!(specs_total));
+    rep.set("not_judged_client_missed_deadline", json!(cn.unjudged.load(Ordering::Relaxed)));
+    rep.set("deviation_bound_completed", json!(if thorough { "1 for all classes; 2 for (read split x read split) after login, (latency x read split inside keep-alive echoes), (keep-alive write deviation x select-draw pattern), (one-byte reads x any pause)" } else { "1 for all classes; 2 for (latency x read split inside keep-alive echoes), (one-byte reads x every third pause), (one-byte reads x select-draw pattern)" }));
+    rep.set("exhaustive", json!(true));
+    rep.set("rule", json!("per scenario: a segment boundary before every byte of the client's stream x {yield, 1 ms, until exactly / just after each of the next timer events of the baseline timeline}; every clientbound frame accepted as {1, half, all-but-one} bytes then {nothing, yield, 1 ms, until exactly / just after each timer event}, or delayed as a whole; one-byte reads, one-byte writes; all 64 patterns of the first 6 unbiased-select draws. Runs in which the injected pause makes the client itself miss a keep-alive deadline are counted and not judged."));
+    rep.sample(json!({"spec": Spec { scenario: "login-transfer".into(), devs: vec![Dev::SplitUntil { offset: 75, t: 16_000 }] }, "meaning": "the bytes from offset 75 on (inside the Encryption Response length prefix) arrive at the first keep-alive tick"}));
+    rep.sample(json!({"spec": Spec { scenario: "slow-discovery".into(), devs: vec![Dev::Write { frame: 3, first: 1, wait: "until".into(), t: 20_001 }] }, "meaning": "the first Keep Alive frame is accepted one byte, the rest only after discovery completed"}));
+    rep.sample(json!({"spec": Spec { scenario: "status".into(), devs: vec![Dev::OneByteReads] }}));
+    rep.assume("pauses are the stated classes relative to the baseline timeline, not arbitrary real-valued delays");
+    rep.assume("keep-alive packets and volatile cookie fields (timestamp, session id) are excluded from the differential comparison");
+    rep.finish()
 }
